@@ -11,7 +11,12 @@ use std::panic::{catch_unwind, AssertUnwindSafe};
 
 thread_local! {
     static LAST_PANIC: RefCell<Option<String>> = RefCell::new(None);
+    static IN_GUARD: std::cell::Cell<u32> = std::cell::Cell::new(0);
 }
+
+/// mark code that runs crate calls under catch_unwind outside of Ctx::guard (C19 programs)
+pub fn enter_guard() { IN_GUARD.with(|g| g.set(g.get() + 1)); }
+pub fn leave_guard() { IN_GUARD.with(|g| g.set(g.get().saturating_sub(1))); }
 
 pub fn install_panic_hook() {
     std::panic::set_hook(Box::new(|info| {
@@ -26,6 +31,10 @@ pub fn install_panic_hook() {
         let mut msg: String = msg.chars().take(300).collect();
         msg.push_str(" @ ");
         msg.push_str(&loc);
+        if IN_GUARD.with(|g| g.get()) == 0 {
+            // a panic of the harness itself: report it (the driver maps this to INCONCLUSIVE)
+            eprintln!("HARNESS-PANIC {}", msg);
+        }
         LAST_PANIC.with(|p| *p.borrow_mut() = Some(msg));
     }));
 }
@@ -134,7 +143,10 @@ impl Ctx {
     /// Run a closure that calls into the crate; a panic is returned as Err(message @ location)
     pub fn guard<R>(&mut self, f: impl FnOnce() -> R) -> Result<R, String> {
         self.evals += 1;
-        match catch_unwind(AssertUnwindSafe(f)) {
+        enter_guard();
+        let res = catch_unwind(AssertUnwindSafe(f));
+        leave_guard();
+        match res {
             Ok(r) => Ok(r),
             Err(_) => {
                 self.panics_caught += 1;
